@@ -32,13 +32,14 @@ def main(tier, seed):
     gen.CALGS = ["shaving"]
     try:
         rep = _modelprop.run(
-            "C10", tier, seed, RULE, do=["enum", "opt"], monitors=["budget", "shaving", "fixpoint"],
+            "C10", tier, seed, RULE, do=["enum", "opt"], monitors=["budget", "shaving", "fixpoint", "branch"],
             want=["C10", "C02", "C03"], jit_share=0.25, per_job=40 if tier == "quick" else 600,
             monitor_opts={"fixpoint": {"ofix": False}}, configs_per_model=2,
             task_extra={"nontrivial": "shaving_probe"}, extra_jobs=probe_jobs, post=_post,
             needs=[("shaving.probes", 5000, "probe monitor"), ("shaving.refutations_rechecked", 100, "refutations"),
                    ("shaving.bc_references", 2000, "BC reference runs"),
                    ("shaving.solution_sets_checked", 2000, "solution preservation"),
+                   ("branch.shaves_audited", 50, "announcement of shaved bounds"),
                    ("probe.shaving_calls_monitored", 300, "compiled in-engine probe (plane B)")],
             assumptions=["C02/C03 failures with the shaving algorithm are reported here as C10 (solver-level clause)"])
     finally:
@@ -47,4 +48,4 @@ def main(tier, seed):
 
 
 def replay(rep_json):
-    return modelfamily.replay_generic("C10", rep_json, monitors=("budget", "shaving"))
+    return modelfamily.replay_generic("C10", rep_json, monitors=("budget", "shaving", "branch"))
